@@ -12,6 +12,11 @@ CLAIMED = {
          "Generated-input search against a reference model of the expected leaves. All (parts 0..3 x embeds 0..3 x attachments 0..3 x 3 encodings x 3 content classes) shape tuples are enumerated completely; everything else (contents, per-leaf options, sources) is sampled, so absence of violations is statistical.",
          "The harness' own MIME reader is the oracle (disagreement with the stdlib readers is reported as a harness error, never as a violation). QP text is generated with CRLF/LF breaks only; caller-chosen boundaries are not generated.",
          "DESIGN.md section 3, C01"),
+ "C11": ("exploration",
+         "rapid-generated message programs x generated histories of render operations (WriteTo, Write, NewReader, UpdateReader, WriteToFile, WriteToTempFile, failed renders by sink or producer fault); metamorphic oracle: every successful output is byte-identical to the first",
+         "Generated histories against a byte-equality oracle; shapes, file sources/encodings and op sequences are sampled by rapid. Map-order dependent differences need several renders to show, so every history renders at least 4 times.",
+         "Send as an output path is compared in C03 (commit log vs. reference render), not here; S/MIME histories are covered by C08's double render.",
+         "DESIGN.md section 3, C11"),
  "C12": ("fault_enumeration",
          "rapid-generated message programs x exhaustive sink-offset fault injection (every byte offset, two sink modes, first/second render) + producer fault injection; oracle: no panic, err != nil, returned count == bytes accepted by the sink",
          "For every generated message program the check enumerates EVERY byte offset at which the destination can start failing (complete for that program) and injects producer failures; the programs themselves are sampled by rapid, so the guarantee is exhaustive per shape and statistical across shapes.",
